@@ -356,7 +356,8 @@ fn build_cases(shapes: &[Value], seed: u64, reps: u64, small_stride: u64) -> Vec
 // ---------------------------------------------------------------------------------------------
 
 struct RunOut {
-    g: Option<ClassGroup>,
+    /// Ok(return value) or Err(panic description)
+    g: Result<Option<ClassGroup>, Value>,
     events: Vec<String>,
 }
 
@@ -373,12 +374,9 @@ fn run_classgroup(n: Uint, threads: usize, outdir: PathBuf, deadline: f64) -> Re
             None
         };
         yamaquasi::verif::start();
-        let r = std::panic::catch_unwind(std::panic::AssertUnwindSafe(|| classgroup::classgroup(&d, &prefs, tpool.as_ref())));
+        let g = guard(|| classgroup::classgroup(&d, &prefs, tpool.as_ref()));
         let events = yamaquasi::verif::stop();
-        match r {
-            Ok(g) => RunOut { g, events },
-            Err(e) => std::panic::resume_unwind(e),
-        }
+        RunOut { g, events }
     })
 }
 
@@ -429,7 +427,40 @@ fn parse_coord_file(path: &Path) -> BTreeMap<u64, Vec<u128>> {
     m
 }
 
+/// (G) replays the histories generated from spec/classgroup/CRelStore.tla into the real CRelationSet
+fn run_store(args: &Args) -> i32 {
+    use yamaquasi::relationcls::{CRelation, CRelationSet};
+    let hists = read_ndjson(arg_str(args, "hists", "hists.ndjson"));
+    let mut out = Out::create(arg_str(args, "out", "trace.ndjson"));
+    // abstract large primes 2, 3, 4, ... of the model -> numbers in the same order
+    let lp = |v: u64| -> Option<(u32, i32)> { if v == 0 { None } else { Some((100 + v as u32, 1)) } };
+    for (i, h) in hists.iter().enumerate() {
+        let hist: Vec<(u64, u64)> =
+            h["hist"].as_array().unwrap().iter().map(|x| (x[0].as_u64().unwrap(), x[1].as_u64().unwrap())).collect();
+        let hh = hist.clone();
+        let r = guard(move || {
+            let mut set = CRelationSet::new(Int::from(-23), 1000, 1000, None);
+            for (k, &(l1, l2)) in hh.iter().enumerate() {
+                set.add(CRelation { factors: vec![(3, k as i32 + 1)], large1: lp(l1), large2: lp(l2) });
+            }
+            let ncyc = set.len();
+            let got: Vec<i32> = set.emitted.iter().map(|r| r.factors[0].1).collect();
+            json!({"got": got, "ncyc": ncyc})
+        });
+        let base = json!({"op": "store", "case": format!("store/{}", i), "hist": h["hist"]});
+        match r {
+            Ok(v) => out.ev2(base, v),
+            Err(e) => out.ev2(base, e),
+        }
+    }
+    out.finish();
+    0
+}
+
 pub fn run(args: &Args) -> i32 {
+    if arg_str(args, "mode", "cls") == "store" {
+        return run_store(args);
+    }
     let seed = arg_u64(args, "seed", 1);
     let reps = arg_u64(args, "reps", 2);
     let stride = arg_u64(args, "small-stride", 1);
@@ -442,7 +473,6 @@ pub fn run(args: &Args) -> i32 {
     let scratch = PathBuf::from(arg_str(args, "scratch", "/tmp/c18-scratch"));
     let mut out = Out::create(arg_str(args, "out", "trace.ndjson"));
     let cases = build_cases(&shapes, seed, reps, stride);
-    let mut lrng = rng_for(seed, "c18-lines");
     for c in &cases {
         let bits = c.n.bits();
         // thread configurations: no pool always; a pool of 4 for multi-polynomial sizes and a sample of others
@@ -458,6 +488,7 @@ pub fn run(args: &Args) -> i32 {
                 }
             }
             let dd = format!("-{}", c.n);
+            let mut lrng = rng_for(seed, &format!("c18-lines/{}", case)); // per case, so that --only reproduces the sample
             let outdir = scratch.join(case.replace('/', "_"));
             let _ = std::fs::remove_dir_all(&outdir);
             // normal time: < 1 s up to 128 bits
@@ -465,18 +496,26 @@ pub fn run(args: &Args) -> i32 {
             let base = json!({"case": case, "dd": dd, "d": dn(&c.n), "threads": threads, "bits": bits, "shape": c.shape});
             let ro = match r {
                 Err(e) => {
-                    // panic or timeout: no result, not judged (recorded)
+                    // did not come back (or the harness thread itself failed): nothing to look at
                     out.ev2(base.clone(), json!({"op": "noresult", "why": e["outcome"], "msg": e.get("msg").cloned().unwrap_or(Value::Null),
                                                  "loc": e.get("loc").cloned().unwrap_or(Value::Null)}));
-                    let _ = std::fs::remove_dir_all(&outdir);
                     continue;
                 }
                 Ok(ro) => ro,
             };
-            let Some(g) = ro.g else {
-                out.ev2(base.clone(), json!({"op": "noresult", "why": "none", "msg": Value::Null, "loc": Value::Null}));
-                let _ = std::fs::remove_dir_all(&outdir);
-                continue;
+            // a run without a result (None, panic) has no class group to judge; the relation file it wrote is
+            // still looked at
+            let g: Option<ClassGroup> = match ro.g {
+                Ok(Some(g)) => Some(g),
+                Ok(None) => {
+                    out.ev2(base.clone(), json!({"op": "noresult", "why": "none", "msg": Value::Null, "loc": Value::Null}));
+                    None
+                }
+                Err(e) => {
+                    out.ev2(base.clone(), json!({"op": "noresult", "why": e["outcome"], "msg": e.get("msg").cloned().unwrap_or(Value::Null),
+                                                 "loc": e.get("loc").cloned().unwrap_or(Value::Null)}));
+                    None
+                }
             };
             // logged relations of this run: line text -> sieve values
             let mut logged: HashMap<String, Vec<(String, String, i64)>> = HashMap::new();
@@ -493,49 +532,55 @@ pub fn run(args: &Args) -> i32 {
                     ev["x"].as_i64().unwrap_or(0),
                 ));
             }
-            // coordinates: returned generators, then the file of eliminated primes
-            let mut coords: BTreeMap<u64, Vec<u128>> = parse_coord_file(&outdir.join("group.structure.extra"));
-            let nextra = coords.len();
-            for (p, v) in &g.gens {
-                coords.insert(*p as u64, v.clone());
-            }
-            let inv: Vec<Value> = g.invariants.iter().map(|&x| du128(x)).collect();
-            let hfile = std::fs::read_to_string(outdir.join("classnumber"))
-                .ok()
-                .and_then(|s| Uint::from_str(s.trim()).ok())
-                .map(|h| dn(&h));
             let sieve = std::fs::read_to_string(outdir.join("relations.sieve")).unwrap_or_default();
-            let lines: Vec<&str> = sieve.lines().collect();
-            let mut res = json!({"op": "result", "h": dn(&g.h), "hd": g.h.to_string(), "inv": inv,
-                "invd": g.invariants.iter().map(|x| x.to_string()).collect::<Vec<_>>(),
-                "gens": g.gens.iter().map(|(p, v)| json!([p, v.iter().map(|&x| du128(x)).collect::<Vec<_>>()])).collect::<Vec<_>>(),
-                "nlines": lines.len(), "nlogged": nlogged, "nextra": nextra});
-            if let Some(hf) = hfile {
-                res["hfile"] = hf;
+            let mut lines: Vec<&str> = sieve.lines().collect();
+            if !sieve.is_empty() && !sieve.ends_with('\n') {
+                lines.pop(); // a line that was being written when the run stopped
             }
-            if bits <= 30 && c.n.digits()[0] <= count_bound {
-                res["n"] = json!(c.n.digits()[0]);
-            }
-            if let Some(f) = &c.facs {
-                res["facs"] = Value::from(f.clone());
-            }
-            // a few small primes that have a prime form (own computation), for the Lagrange check f^h = 1
-            let mut pw: Vec<Value> = vec![];
-            let mut p = 2u64;
-            let want = if bits > 64 { std::cmp::max(1, npow / 2) } else { npow };
-            while (pw.len() as u64) < want && p < 2000 {
-                if is_prime_u64(p) && umod(&c.n, p) != 0 {
-                    let b = b_plus(&c.n, p);
-                    if b >= 0 {
-                        pw.push(json!([p, b]));
-                    }
+            let mut coords: BTreeMap<u64, Vec<u128>> = BTreeMap::new();
+            if let Some(g) = &g {
+                // coordinates: returned generators, then the file of eliminated primes
+                coords = parse_coord_file(&outdir.join("group.structure.extra"));
+                let nextra = coords.len();
+                for (p, v) in &g.gens {
+                    coords.insert(*p as u64, v.clone());
                 }
-                p += 1;
+                let inv: Vec<Value> = g.invariants.iter().map(|&x| du128(x)).collect();
+                let hfile = std::fs::read_to_string(outdir.join("classnumber"))
+                    .ok()
+                    .and_then(|s| Uint::from_str(s.trim()).ok())
+                    .map(|h| dn(&h));
+                let mut res = json!({"op": "result", "h": dn(&g.h), "hd": g.h.to_string(), "inv": inv,
+                    "invd": g.invariants.iter().map(|x| x.to_string()).collect::<Vec<_>>(),
+                    "gens": g.gens.iter().map(|(p, v)| json!([p, v.iter().map(|&x| du128(x)).collect::<Vec<_>>()])).collect::<Vec<_>>(),
+                    "nlines": lines.len(), "nlogged": nlogged, "nextra": nextra});
+                if let Some(hf) = hfile {
+                    res["hfile"] = hf;
+                }
+                if bits <= 30 && c.n.digits()[0] <= count_bound {
+                    res["n"] = json!(c.n.digits()[0]);
+                }
+                if let Some(f) = &c.facs {
+                    res["facs"] = Value::from(f.clone());
+                }
+                // a few small primes that have a prime form (own computation), for the Lagrange check f^h = 1
+                let mut pw: Vec<Value> = vec![];
+                let mut p = 2u64;
+                let want = if bits > 64 { std::cmp::max(1, npow / 2) } else { npow };
+                while (pw.len() as u64) < want && p < 2000 {
+                    if is_prime_u64(p) && umod(&c.n, p) != 0 {
+                        let b = b_plus(&c.n, p);
+                        if b >= 0 {
+                            pw.push(json!([p, b]));
+                        }
+                    }
+                    p += 1;
+                }
+                if !pw.is_empty() {
+                    res["pw"] = Value::from(pw);
+                }
+                out.ev2(base.clone(), res);
             }
-            if !pw.is_empty() {
-                res["pw"] = Value::from(pw);
-            }
-            out.ev2(base.clone(), res);
             // lines of relations.sieve (all of them, or a seeded sample of maxlines)
             let mut idxs: Vec<usize> = (0..lines.len()).collect();
             if lines.len() > maxlines {
@@ -563,7 +608,7 @@ pub fn run(args: &Args) -> i32 {
                         _ => bad = true,
                     }
                 }
-                let mut e = json!({"op": "line", "lineno": li + 1, "text": line, "bad": bad,
+                let mut e = json!({"op": "line", "lineno": li + 1, "text": line, "bad": bad, "returned": g.is_some(),
                     "F": f.iter().map(|&(v, k)| json!([v.abs(), if v > 0 { k } else { -k }])).collect::<Vec<_>>(),
                     "bp": f.iter().map(|&(v, _)| b_plus(&c.n, v.unsigned_abs())).collect::<Vec<_>>()});
                 if let Some(us) = logged.get(line) {
@@ -577,7 +622,7 @@ pub fn run(args: &Args) -> i32 {
                     e["xc"] = json!(true);
                 }
                 let co: Option<Vec<&Vec<u128>>> = f.iter().map(|&(v, _)| coords.get(&v.unsigned_abs())).collect();
-                if let Some(co) = co {
+                if let (Some(co), Some(g)) = (co, &g) {
                     if co.iter().all(|v| v.len() == g.invariants.len()) {
                         e["inv"] = Value::from(g.invariants.iter().map(|&x| du128(x)).collect::<Vec<_>>());
                         e["co"] = Value::from(co.iter().map(|v| v.iter().map(|&x| du128(x)).collect::<Vec<_>>()).collect::<Vec<_>>());
